@@ -1,6 +1,8 @@
 package main
 
 import (
+	"go/token"
+
 	"golang.org/x/tools/go/ssa"
 )
 
@@ -136,6 +138,23 @@ func allSourcesSatisfy(p *Prog, v ssa.Value, leaf func(ssa.Value) bool, depth in
 			}
 		}
 		return true
+	}
+	return false
+}
+
+// lenExpr: v is len(x), or len(x) plus/minus something that is not itself read from a byte (a remaining length).
+func lenExpr(v ssa.Value, depth int) bool {
+	v = stripConv(v)
+	if depth > 4 {
+		return false
+	}
+	switch x := v.(type) {
+	case *ssa.Call:
+		return calleeName(&x.Call) == "builtin.len"
+	case *ssa.BinOp:
+		if x.Op == token.SUB || x.Op == token.ADD {
+			return lenExpr(x.X, depth+1) || (x.Op == token.ADD && lenExpr(x.Y, depth+1))
+		}
 	}
 	return false
 }
